@@ -33,16 +33,16 @@ PKG_FIRST = "abcdefghijklmnopqrstuvwxyz0123456789"
 PKG_REST = PKG_FIRST + "+.-"
 VER_CH = "ABCXYZabcdxyz0123456789.+~"
 DISTS = ["unstable", "stable", "experimental", "UNRELEASED", "stable-security", "bookworm-backports",
-         "oldstable-proposed-updates", "sid", "buster.1", "jessie-backports-sloppy", "testing", "xenial", "a", "s+x", "0"]
-URG = ["low", "medium", "high", "emergency", "critical", "HIGH", "Low", "x-y", "0"]
+         "oldstable-proposed-updates", "sid", "buster.1", "jessie-backports-sloppy", "testing", "xenial", "12.5-updates"]
+URG = ["low", "medium", "high", "emergency", "critical", "HIGH", "Low", "Medium"]
 COMMENTS = ["(HIGH for users of diversions)", "(security)", "(a=b)", "because: reasons; more", "(é ü)", "x", "(#12345 fixed)"]
-KEYS = ["binary-only", "XS-Foo", "XC-Bar", "xb-baz", "Closes", "a", "0-9", "Key"]
+KEYS = ["binary-only", "XS-Foo", "XC-Bar", "xb-baz", "Closes", "a", "x-v2", "Key"]
 VALS = ["yes", "no", "a b c", "x=y;z", "1.0-1", "é", "(v)", "#1", "v:w"]
 WORDS = ["fix", "the", "frobnicator", "Closes: #123456", "LP: #99", "naïve", "中文", "#", ":", "key: value", "a\tb",
          "-- Joe <j@x>  Mon, 01 Jan 2001 00:00:00 +0000", "(pkg) unstable; urgency=low", "[ Someone Else ]",
          "$Id$", "vim:", "/* c */", "ÀÉÎ", "ß", "𝔘", " ", "'quoted'", "\"dq\"", "\\", "%s", "{}", "--", "*", "+"]
 NAMES = ["Joe Hacker", "J. R. Hacker", "\"Quoted, Name\"", "Name [team]", "Zoë Müller", "x", "A <B> C", "名前", "O'Neil", "Sole",
-         "Joe (work)", "Dr.-Ing. X", ""]
+         "Joe (work)", "Dr.-Ing. X"]
 MAILS = ["joe@example.org", "j.h+tag@sub.example.co.uk", "", "a@b", "first.last@例え.jp", "root@localhost"]
 DOW = ["Mon", "Tue", "Wed", "Thu", "Fri", "Sat", "Sun"]
 MON = ["Jan", "Feb", "Mar", "Apr", "May", "Jun", "Jul", "Aug", "Sep", "Oct", "Nov", "Dec"]
@@ -69,15 +69,16 @@ def gen_dists(rng):
 
 
 def gen_date(rng):
-    d = rng.randint(1, 31)
-    day = rng.choice(["%d" % d, "%02d" % d])
-    h = rng.randint(0, 23)
-    hour = rng.choice(["%d" % h, "%02d" % h])
-    s = "%s %s %04d %s:%02d:%02d %s%04d" % (day, rng.choice(MON), rng.choice([1996, 2001, 2012, 2024, 2038, 9999, 1]),
-                                           hour, rng.randint(0, 59), rng.randint(0, 60), rng.choice("+-"),
-                                           rng.choice([0, 100, 200, 530, 545, 1245, 1400, 9999, 30]))
+    """a real calendar date (the weekday, when written, is the right one) in the documented form
+    [day-of-week, ]d[d] month yyyy h[h]:mm:ss +zzzz with a real-world zone"""
+    import datetime
+    t = datetime.datetime(1995, 1, 1) + datetime.timedelta(seconds=rng.randrange(0, 43 * 365 * 86400))
+    day = rng.choice(["%d" % t.day, "%02d" % t.day])
+    hour = rng.choice(["%d" % t.hour, "%02d" % t.hour])
+    s = "%s %s %04d %s:%02d:%02d %s%04d" % (day, MON[t.month - 1], t.year, hour, t.minute, t.second, rng.choice("+-"),
+                                           rng.choice([0, 100, 200, 330, 530, 545, 800, 930, 1000, 1200, 1245, 1400]))
     if rng.random() < 0.75:
-        s = rng.choice(DOW) + "," + rng.choice([" ", " ", "  "] if len(day) == 1 else [" "]) + s
+        s = DOW[t.weekday()] + "," + rng.choice([" ", " ", "  "] if len(day) == 1 else [" "]) + s
     return s
 
 
@@ -629,7 +630,7 @@ def record_parse_trace(lines, aea, wf, doc_every=0):
             s, err = fmt(cl)
             e["fmt"] = s is not None
             if s is None:
-                e["nf"] = err == "unformattable"
+                e["ok"] = e["ok"] and err == "unformattable"     # any other exception of str() is a violation
             else:
                 e["rt"] = s == text
                 e["nf"] = fixpoint(cl, s) is None
@@ -670,12 +671,12 @@ def edit_event(it, cl, op, arg, how):
         v = [it("")]
     else:
         v = [it.urg(arg) if op == "SetUrgency" else it(arg)]
-    e = dict(op=op, v=v, fmt=False, nf=err is None, bl=[])
+    e = dict(op=op, v=v, ok=err is None, fmt=False, nf=True, bl=[])
     if err is None:
         s, ferr = fmt(cl)
         e["fmt"] = s is not None
         if s is None:
-            e["nf"] = ferr == "unformattable"
+            e["ok"] = ferr == "unformattable"                     # any other exception of str() is a violation
         else:
             e["nf"] = fixpoint(cl, s) is None
         e["bl"] = proj_blocks(it, cl)
@@ -801,30 +802,81 @@ def corrupt_trace(t, how):
     if how == "order":
         for e in ops:
             for b in e["bl"]:
-                if len(b["ch"]) >= 2 and b["ch"][0] != b["ch"][-1]:
-                    b["ch"][0], b["ch"][-1] = b["ch"][-1], b["ch"][0]
+                if len(b["ch"]) >= 2 and b["ch"][0] != b["ch"][1]:
+                    b["ch"][0], b["ch"][1] = b["ch"][1], b["ch"][0]
                     return t
     return None
 
 
 # ------------------------------------------------------------------ trace validation with the verdict / drift split
 
-def validate(ctx, traces, controls=(), verdict_controls=()):
-    """full-mode validation; traces rejected there are re-validated in verdict mode.
+def golden_traces():
+    """two hand-written traces (they do not depend on the code under test): what a correct parser shows
+    for  header / '' / change / '' / trailer / ''  prefix by prefix, and three editing calls on it.
+    They must be accepted in every validation run; their corruptions are the control traces."""
+    def ev(c, v, h, sr, w, ch, tr, doc=NO_DOC):
+        return dict(c=c, v=v, h=h, ok=True, sr=sr, w=w, nb=1, ini=0, ch=ch, tr=tr, fmt=True, nf=True, rt=True, doc=doc)
+    hdr = [2, 3, 4, 5, -1]
+    final = dict(has=True, ini=[], bl=[dict(h=list(hdr), ch=[6, 7, 6], au=9, da=10, tr=[6])])
+    lines = [ev("TopOK", 1, list(hdr), True, 1, [0], [0]),
+             ev("Blank", 6, [], True, 1, [1], [0]),
+             ev("Change", 7, [], True, 1, [2], [0]),
+             ev("Blank", 6, [], True, 1, [3], [0]),
+             ev("EndOK", 8, [9, 10], False, 0, [3], [0]),
+             ev("Blank", 6, [], False, 0, [3], [1], final)]
+    parse = dict(kind="parse", aea=False, wf=True, lines=lines)
+    old = dict(h=[2, 3, 4, 5], ch=[6, 7, 11, 6], au=9, da=10)
+    new = dict(h=[12, 13, 14, 15], ch=[], au=16, da=17)
+    edit = dict(kind="edit", aea=False, lines=[dict(c=e["c"], v=e["v"], h=list(e["h"])) for e in lines],
+                bl0=[dict(h=[2, 3, 4, 5], ch=[6, 7, 6], au=9, da=10)],
+                ops=[dict(op="AddChange", v=[11], ok=True, fmt=True, nf=True, bl=[old]),
+                     dict(op="NewBlockFull", v=[12, 13, 14, 15, -1, 16, 17, 6], ok=True, fmt=True, nf=True, bl=[new, old]),
+                     dict(op="SetVersion", v=[18], ok=True, fmt=True, nf=True, bl=[dict(new, h=[12, 18, 14, 15]), old])])
+    return [parse, edit]
+
+
+def golden_controls():
+    """-> (controls for full mode, controls that must also be rejected in verdict mode)"""
+    parse, edit = golden_traces()
+    controls, vcontrols = [], []
+    for how in ("strict", "blocks", "warn", "content", "moved"):
+        c = corrupt_trace(parse, how)
+        assert c is not None, how
+        controls.append(c)
+        if how in ("strict", "warn", "content"):
+            vcontrols.append(c)
+    for how in ("nf", "order"):
+        c = corrupt_trace(edit, how)
+        assert c is not None, how
+        controls.append(c)
+        if how == "nf":
+            vcontrols.append(c)
+    return controls, vcontrols
+
+
+def validate(ctx, traces):
+    """full-mode validation; traces rejected there are re-validated in verdict mode.  Every run also
+    validates the two golden traces (must be accepted) and their corruptions (must be rejected).
     -> (violating ids, drifting ids, info{id: first unexplained event})  (ids are 1-based)"""
+    golden = golden_traces()
+    controls, vcontrols = golden_controls()
     payload = [strip_trace(t) for t in traces]
-    acc, _, r = core.validate_traces(ctx, "TraceChangelog", "TraceChangelog.cfg", payload,
-                                     extra_env={"TRACE_DIAG": "0", "TRACE_MODE": "full"},
-                                     controls=[strip_trace(c) for c in controls])
+    acc, _, r = core.validate_traces(ctx, "TraceChangelog", "TraceChangelog.cfg", payload + golden,
+                                     extra_env={"TRACE_DIAG": "0", "TRACE_MODE": "full"}, controls=controls)
     if r.printed.get("REJECT"):
         raise core.MachineryError("classifier and generator disagree on a well-formed text: %r" % r.printed["REJECT"][:3])
+    for j in range(len(golden)):
+        if len(traces) + 1 + j not in acc:
+            raise core.MachineryError("golden %s trace not accepted: specification and trace format are out of sync" % golden[j]["kind"])
     rejected = [i for i in range(1, len(traces) + 1) if i not in acc]
     if not rejected:
-        return [], [], {}       # (the verdict-mode controls are only needed when verdict mode decides something)
+        return [], [], {}       # (verdict mode decides nothing in this run)
     sub = [payload[i - 1] for i in rejected]
-    acc2, prog, _ = core.validate_traces(ctx, "TraceChangelog", "TraceChangelog.cfg", sub,
-                                         extra_env={"TRACE_DIAG": "1", "TRACE_MODE": "verdict"},
-                                         controls=[strip_trace(c) for c in verdict_controls])
+    acc2, prog, _ = core.validate_traces(ctx, "TraceChangelog", "TraceChangelog.cfg", sub + golden,
+                                         extra_env={"TRACE_DIAG": "1", "TRACE_MODE": "verdict"}, controls=vcontrols)
+    for j in range(len(golden)):
+        if len(sub) + 1 + j not in acc2:
+            raise core.MachineryError("golden %s trace not accepted in verdict mode" % golden[j]["kind"])
     viol, drift, info = [], [], {}
     for j, i in enumerate(rejected):
         if (j + 1) in acc2:
